@@ -3,6 +3,7 @@ package gedcom
 import (
 	"reflect"
 	"sync"
+	"sync/atomic"
 )
 
 type Nodes []Node
@@ -11,7 +12,25 @@ type Nodes []Node
 // fairly inexpensive it happens a lot and its common for the same paths to be
 // looked up many time. Especially when doing larger task like comparing GEDCOM
 // files.
-var nodeCache = &sync.Map{} // map[Node]map[Tag]Nodes{}
+//
+// The cache is thrown away as a whole whenever the children of any node change
+// (see SimpleNode.AddNode). That happens in one goroutine (decoding another
+// document, copying nodes for a page) while others are reading, so the current
+// cache is held in an atomic.Value: use currentNodeCache and resetNodeCache.
+var nodeCache = func() *atomic.Value {
+	cache := &atomic.Value{}
+	cache.Store(&sync.Map{}) // map[Node]map[Tag]Nodes{}
+
+	return cache
+}()
+
+func currentNodeCache() *sync.Map {
+	return nodeCache.Load().(*sync.Map)
+}
+
+func resetNodeCache() {
+	nodeCache.Store(&sync.Map{})
+}
 
 func NewNodes(ns interface{}) (nodes Nodes) {
 	v := reflect.ValueOf(ns)
@@ -27,17 +46,17 @@ func NewNodes(ns interface{}) (nodes Nodes) {
 //
 // If the node is nil the result will also be nil.
 func NodesWithTag(node Node, tag Tag) (result Nodes) {
-	if v1, ok1 := nodeCache.Load(node); ok1 {
+	if v1, ok1 := currentNodeCache().Load(node); ok1 {
 		if v2, ok2 := v1.(*sync.Map).Load(tag); ok2 {
 			return v2.(Nodes)
 		}
 	}
 
 	defer func() {
-		if v1, ok := nodeCache.Load(node); ok {
+		if v1, ok := currentNodeCache().Load(node); ok {
 			v1.(*sync.Map).Store(tag, result)
 		} else {
-			nodeCache.Store(node, &sync.Map{})
+			currentNodeCache().Store(node, &sync.Map{})
 		}
 	}()
 
